@@ -4,8 +4,9 @@
    `svalues[bytepos] |= ...` code of encodeBlock / downresSubBlock for writing.
    The Go table leftBitMask is taken from Gen.Consts (regenerated from the source).
 
-   This file holds the definitions and the finite sweeps (vm_compute); the structural
-   lemmas built on them are in Proofs/BitPack.v. *)
+   This file holds the definitions only (models keep building when a sweep fails); the finite
+   sweeps (vm_compute) are in Proofs/BitPackSweep.v, the structural lemmas built on them in
+   Proofs/BitPack.v. *)
 From DV Require Import Base.Prelude Gen.Consts.
 Local Open Scope N_scope.
 
@@ -135,19 +136,3 @@ Definition sweep_get2 (k : N) : bool :=
 Definition sweep_put (k : N) : bool :=
   forallb (fun h => forallb (fun c => forallb (fun v => put_ok k h c v) (nseq (2 ^ k))) (nseq (2 ^ h))) heads.
 
-Lemma sweep_get1_true : sweep_get1 = true.
-Proof. vm_compute. reflexivity. Qed.
-
-(* the 4.7 million (k, h, b0, b1) cases of the straddling read, one width at a time *)
-Lemma sweep_get2_1 : sweep_get2 1 = true. Proof. vm_compute. reflexivity. Qed.
-Lemma sweep_get2_2 : sweep_get2 2 = true. Proof. vm_compute. reflexivity. Qed.
-Lemma sweep_get2_3 : sweep_get2 3 = true. Proof. vm_compute. reflexivity. Qed.
-Lemma sweep_get2_4 : sweep_get2 4 = true. Proof. vm_compute. reflexivity. Qed.
-Lemma sweep_get2_5 : sweep_get2 5 = true. Proof. vm_compute. reflexivity. Qed.
-Lemma sweep_get2_6 : sweep_get2 6 = true. Proof. vm_compute. reflexivity. Qed.
-Lemma sweep_get2_7 : sweep_get2 7 = true. Proof. vm_compute. reflexivity. Qed.
-Lemma sweep_get2_8 : sweep_get2 8 = true. Proof. vm_compute. reflexivity. Qed.
-Lemma sweep_get2_9 : sweep_get2 9 = true. Proof. vm_compute. reflexivity. Qed.
-
-Lemma sweep_put_true : forallb sweep_put [1;2;3;4;5;6;7;8;9] = true.
-Proof. vm_compute. reflexivity. Qed.
